@@ -19,6 +19,11 @@ def hostile_streams(r):
         ("garbage", r.bytes(r.rng(1, 40))),
         ("garbage-after-set", good_set + b"\x00\x01garbage\r\n"),
         ("unknown-command", arr(bulk(b"FLUSHALL"))),
+        ("unknown-long-ascii", arr(bulk(b"Z" * r.choice([64, 65, 200, 5000])))),
+        ("unknown-long-multibyte-63", arr(bulk(b"A" * 63 + "é€😀".encode() * 3), bulk(hk))),
+        ("unknown-long-multibyte-boundary", arr(bulk(b"A" * r.choice([60, 61, 125, 126, 253, 254, 1021, 4093]) + "é€😀".encode() * 3))),
+        ("unknown-long-multibyte-random", arr(bulk(b"A" * r.rng(0, 400) + "😀€é".encode() * r.rng(1, 40)))),
+        ("unknown-long-invalid-utf8", arr(bulk(b"\xff" * r.rng(20, 90)))),
         ("lowercase", arr(bulk(b"set"), bulk(hk), bulk(hv))),
         ("get-extra-arg", arr(bulk(b"GET"), bulk(hk), bulk(hk))),
         ("set-extra-arg", arr(bulk(b"SET"), bulk(hk), bulk(hv), bulk(b"x"))),
@@ -46,6 +51,59 @@ def hostile_streams(r):
     return out
 
 
+def oracle_store(stream, keys):
+    """Model-independent reading of the property: the store changes only through well-formed SET and DEL commands; everything
+    from the first frame that is not a well-formed command on is without effect.  Strict minimal parser: arrays of bulk strings."""
+    m = {}
+    i, n = 0, len(stream)
+
+    def line(i):
+        j = stream.find(b"\r\n", i)
+        return (None, i) if j < 0 else (stream[i:j], j + 2)
+
+    def num(b):
+        return int(b) if b.isdigit() and len(b) < 10 else None
+
+    while i < n:
+        if stream[i:i + 1] != b"*":
+            break
+        l, i = line(i + 1)
+        cnt = num(l) if l is not None else None
+        if cnt is None:
+            break
+        items = []
+        for _ in range(cnt):
+            if stream[i:i + 1] != b"$":
+                items = None
+                break
+            l, i = line(i + 1)
+            ln = num(l) if l is not None else None
+            if ln is None or i + ln + 2 > n or stream[i + ln:i + ln + 2] != b"\r\n":
+                items = None
+                break
+            items.append(stream[i:i + ln])
+            i += ln + 2
+        if not items:
+            break
+
+        def utf8(b):
+            try:
+                b.decode("utf-8")
+                return True
+            except UnicodeDecodeError:
+                return False
+        if items[0] == b"SET" and len(items) == 3 and utf8(items[1]):
+            m[items[1]] = items[2]
+        elif items[0] == b"GET" and len(items) == 2 and utf8(items[1]):
+            pass
+        elif items[0] == b"DEL" and len(items) >= 2 and all(utf8(k) for k in items[1:]):
+            for k in items[1:]:
+                m.pop(k, None)
+        else:
+            break
+    return ",".join("%s=%s" % (k.hex(), ("some:" + m[k].hex()) if k in m else "none") for k in keys)
+
+
 def make(rng, tier):
     reps = {"quick": 3, "thorough": 40}[tier]
     scs = []
@@ -64,7 +122,7 @@ def make(rng, tier):
                     "send g2 %s" % G.rawhex(arr(bulk(b"GET"), bulk(b"gk"))), "recv g2 9 3000",
                     "alive", "conn g3", "send g3 %s" % G.rawhex(arr(bulk(b"GET"), bulk(b"gk"))), "recv g3 9 3000",
                     "storeget 686b", "storeget 686b32", "storeget 676b", "storeget fffe"]
-            sc = N.Scenario("h%d-%s" % (rep_i, name), "maxconn=8", ops)
+            sc = N.Scenario("h%d-%s" % (rep_i, name), "maxconn=3", ops)
             sc.kind, sc.segs, sc.stream = name, segs, stream
             scs.append(sc)
     return scs
@@ -131,6 +189,11 @@ def main(tier, seed):
             mout, mterm, mstore = m.split("|")
             st, n, hx = bad.split(":", 2)
             impl_store = "686b=%s,686b32=%s" % (byop.get("storeget 686b"), byop.get("storeget 686b32"))
+            if impl_store != mstore and impl_store != oracle_store(sc.stream, keys[:2]):
+                # a concrete violation, decided without the model: data changed through something that is not a well-formed command
+                rep.failing.append({"what": "stored data changed through a malformed command (%s): the store holds %s, the well-formed "
+                                            "commands of the stream give %s" % (sc.kind, impl_store, oracle_store(sc.stream, keys[:2])),
+                                    "stream_hex": G.rawhex(sc.stream)[:600], "reply_to_offender": bad[:80]})
             if st not in ("eof", "reset") or (st == "eof" and hx != mout) or impl_store != mstore:
                 ndis += 1
                 rep.disagree.append({"obligation": "correspondence handler: model = server on hostile input", "kind": sc.kind,
@@ -140,10 +203,12 @@ def main(tier, seed):
         "checker_cmd": "make -C coq Props/C10.vo (coqc 8.16.1) ; bin/check C10",
         "trusted_base": TRUSTED,
         "evaluations": len(scs), "distinct_nontrivial": len(kinds),
-        "rule": "one scenario = one hostile byte stream (26 families: garbage, unknown/lower-case commands, wrong arity, non-UTF-8 "
+        "rule": "one scenario = one hostile byte stream (31 families: garbage, unknown/lower-case commands, unknown commands with long "
+                "ASCII / multi-byte / invalid UTF-8 names, wrong arity, non-UTF-8 "
                 "keys, truncated frames, nesting at/beyond the limit and 100000 deep, absurd lengths, malformed items after well-formed "
                 "commands, mutations) sent on one connection while two other connections issue SET/GET with known answers before, "
-                "during and after; afterwards the server must still accept a new connection; distinct = hostile families",
+                "during and after (max_connections = 3, so the three fill the server); afterwards a NEW connection must be served, which "
+                "needs the slot of the hostile one; distinct = hostile families",
         "kinds": kinds,
         "samples": [{"kind": scs[0].kind, "ops": scs[0].ops[:10], "out": (scs[0].out or [])[:10]}],
         "proof": {"file": "coq/Props/C10.v", "theorems": pr["theorems"], "axioms": pr["axioms"]},
